@@ -409,9 +409,25 @@ def run(ctx):
             jobs[cfg] = pool.submit(_tlc_retry, ctx, "MHKernel", cfg=cfg, workers=2, expect_violation=True)
         if tier == "thorough":
             jobs["sim"] = pool.submit(_tlc_retry, ctx, "MHKernel", cfg="MHKernel.sim.thorough.cfg", workers=4, mode="simulate",
-                                      simulate="num=700", depth=40, seed=1000 + ctx.seed, timeout=3000)
-        res = {k: f.result() for k, f in jobs.items()}
+                                      simulate="num=500", depth=40, seed=1000 + ctx.seed, timeout=3000)
+        # 3. code -> spec (recorded runs + trace validation) while the model-checking runs are in progress
+        trace_error = None
+        try:
+            trace_facet(ctx, workdir)
+        except BaseException as ex:      # re-raised below, after the TLC jobs have been collected
+            trace_error = ex
+        res = {}
+        job_error = None
+        for k, f in jobs.items():
+            try:
+                res[k] = f.result()
+            except BaseException as ex:
+                job_error = job_error or ex
     try:
+        if job_error is not None:
+            raise job_error
+        if trace_error is not None:
+            raise trace_error
         ctx.model_must_hold(res["main"], "MHKernel")
         ctx.model_must_hold(res["deep"], "MHKernel(deep)")
         ctx.model_must_hold(res["m0"], "MHKernel(raw prior draw, m=0)")
@@ -445,8 +461,6 @@ def run(ctx):
         if pcn:
             ctx.sample({"behaviour": {"cfg": pcn["cfg"], "prog": pcn["prog"][:2]}})
         probes(ctx)
-        # 3. code -> spec
-        trace_facet(ctx, workdir)
     finally:
         from cuqiverif import tlc
         import shutil
